@@ -979,6 +979,42 @@ theorem stop_empty_group_keeps_sync_candidate (s : State) (g : Nat)
     minAck s.q.appended (erase s.live g) = minAck s.q.appended s.live :=
   minAck_erase_empty _ _ g (fun grp hm => by have := h grp hm; simpa [Group.isEmpty] using this)
 
+/-- StopConsumerGroup + re-create, and groups created late (fix 33cf950 = `Variant.fixed`): the group
+`GetOrCreateConsumerGroup` puts into the map is at queue ack ≤ ack ≤ consumed; without a meta page it
+starts exactly at the queue ack; with one (a stopped group) its ack is the stored ack lifted to the
+queue ack and its consumed position the stored one lifted to that ack — so stored positions at or
+above the queue ack come back unchanged. From ANY state. -/
+theorem created_group_positions (v : Variant) (hv1 : v.liftConsumed = true) (hv2 : v.freshAtQueueAck = true)
+    (s : State) (g : Nat) (hnl : lookup s.live g = none) :
+    ∃ grp, lookup (step v s (.create g)).1.live g = some grp ∧ s.q.ack ≤ grp.ack ∧ grp.ack ≤ grp.consumed ∧
+      (lookup s.metas g = none → grp.ack = s.q.ack ∧ grp.consumed = s.q.ack) ∧
+      (∀ m, lookup s.metas g = some m →
+        grp.ack = (if m.ack < s.q.ack then s.q.ack else m.ack) ∧
+        grp.consumed = (if m.consumed < grp.ack then grp.ack else m.consumed)) := by
+  refine ⟨(newGroup v s.q.ack (lookup s.metas g)).toGroup, ?_, ?_⟩
+  · show lookup (s.create v g).live g = _
+    unfold State.create
+    rw [hnl]
+    exact lookup_upsert_self _ _ _
+  · cases hm : lookup s.metas g with
+    | none =>
+      have e : newGroup v s.q.ack none = { consumed := s.q.ack, ack := s.q.ack } := by simp [newGroup, hv2]
+      rw [e]
+      exact ⟨Int.le_refl _, Int.le_refl _, fun _ => ⟨rfl, rfl⟩, fun m h => by cases h⟩
+    | some m =>
+      have ea : (newGroup v s.q.ack (some m)).ack = if m.ack < s.q.ack then s.q.ack else m.ack := by
+        simp [newGroup, restoredAck]
+      have ec : (newGroup v s.q.ack (some m)).consumed =
+          if m.consumed < (newGroup v s.q.ack (some m)).ack then (newGroup v s.q.ack (some m)).ack else m.consumed := by
+        simp [newGroup, restoredConsumed, hv1]
+      refine ⟨?_, ?_, (fun h => by cases h), (fun m' h' => ?_)⟩
+      · show s.q.ack ≤ (newGroup v s.q.ack (some m)).ack
+        rw [ea]; split <;> omega
+      · show (newGroup v s.q.ack (some m)).ack ≤ (newGroup v s.q.ack (some m)).consumed
+        rw [ec]; split <;> omega
+      · cases h'
+        exact ⟨ea, ec⟩
+
 /-- the regenerated access tables (which shared field is read / written under which lock) are the
 ones the micro-step model mirrors: Consume's first load is unlocked and it delegates to consume();
 consume() loads, compares, stores and persists under `lock4headSeq.Lock`; Ack does all of its loads,
